@@ -255,9 +255,22 @@ def gen_get(rng):
         return {"tool": "yaml-get", "opts": ["-p", path] + KEYOPTS,
                 "doc": text, "fname": W + "doc.yaml", "files": {},
                 "path": path, "pathsep": "auto", "eyaml": True}
-    doc = doc_for(rng, _stamps=rng.random() < 0.25)
+    merges = rng.random() < 0.15
+    doc = doc_for(rng, _stamps=rng.random() < (0.6 if merges else 0.25),
+                  mergekeys=merges, rich_merge_sources=merges,
+                  **({"anchors": True, "max_nodes": 16} if merges else {}))
     text, suffix = render_doc(rng, doc)
     path, sep = some_path(rng, doc)
+    takers = [s for s, n in gen_docs.positions(doc)
+              if s and n["t"] == "m" and n.get("merge")]
+    if takers and rng.random() < 0.6:
+        # the hash that merges another one in, or the container holding it:
+        # what it inherits has to be printed like what it owns
+        segs = rng.choice(takers)
+        if len(segs) > 1 and rng.random() < 0.4:
+            segs = segs[:-1]
+        sep = rng.choice([".", "/"])
+        path = gen_docs.render_path(segs, sep)
     opts = ["-p", path]
     if rng.random() < 0.3:
         opts += ["-t", "dot" if sep == "." else "fslash"]
